@@ -24,7 +24,11 @@ ENTRY = {
                 "each polled until Ready with the Pendings counted, final state (verif_state) and pipes dumped, 15% ONE real future (dialer or listener) against a scripted peer byte stream (frame sequences "
                 "incl. ls / ls-responses / empty frames / garbage / mutated or truncated varints, closed at the end), 15% webrtc_listener_negotiate and "
                 "10% WebRtcDialerState on generated and mutated payloads, 10% ProtocolSet::report_substream_open on generated main/fallback tables "
-                "(~20% degenerate: shared fallback, fallback equal to a main, unknown name). For a stream case the REAL dialer_select_proto / "
+                "(~20% degenerate: shared fallback, fallback equal to a main, unknown name), and 1% (30 quick / 1500 thorough) END-TO-END: two real Litep2p "
+                "nodes over loopback TCP or WebSocket, each with 1-3 request-response protocols carrying 0-3 fallback names (well-formed tables over a pool of "
+                "versioned names, B mostly offering several of the names A proposes), protocol k of A sends one request: the real open_substream "
+                "(main :: fallbacks over a real yamux stream), accept_substream (ProtocolSet names in hash-map order), report_substream_open on both ends; "
+                "observed: A's terminal event with the fallback it reports, and which protocol of B got the request with which fallback. For a stream case the REAL dialer_select_proto / "
                 "listener_select_proto futures and the Negotiated streams they return are polled over a scripted in-memory duplex; each side then "
                 "writes its payload, closes and reads to EOF. Compared with the extracted Coq model: both results (index or error class), read-end "
                 "status, application bytes received by each side, every byte each side wrote, bytes left unread in each direction, stuck/terminated "
@@ -41,10 +45,13 @@ ENTRY = {
                 "confirmation (all of them at EOF, read + left = tail once Completed), no data or EOF ever from a stream whose input is not [header +] "
                 "confirmation, the wire carries header + proposal followed by exactly the accepted write bytes (complete as soon as any operation "
                 "succeeded), write/flush/close fail only after a failed read, after the first error every operation fails with the stream in the failed "
-                "state and its outbound direction closed."),
+                "state and its outbound direction closed; end-to-end mode: a response implies that the name in use (A's reported fallback, else its main name) "
+                "is the MOST PREFERRED of main :: fallbacks that B offers, a reported fallback is a declared one, B delivered the request to the protocol "
+                "and with the fallback that Fallback.spec names; a failure only when B offers none of A's names."),
         "trusted_base": [
             "the scripted duplex of harness/src/c03.rs stands for the byte carrier (yamux/TCP below it is not modelled); writes to a dropped end are accepted, a dropped end reads as EOF once drained; poll_flush of the carrier is always Ready",
             "futures are polled with a no-op waker by the scheduler script, i.e. wake-ups are not relied upon",
+            "end-to-end mode: real sockets and real time (request timeout 5 s, harness patience 20 s); Noise, yamux and the transport manager are exercised but not modelled; only well-formed tables (no shared fallbacks, whose winner depends on hash-map order)",
             "timed mode: tokio's paused clock (start_paused, time::advance by 1 ms per tick inside a current-thread runtime) stands for real time; both wrappers read the same clock; the deadline is fixed at the first poll of negotiate_protocol (its async body creates the Timeout); open_substream's yamux open_stream and accept_substream's keep-alive lookup are outside (they need a yamux connection)",
             "ProtocolSet tables: a fallback name declared by several main protocols is resolved by HashMap iteration order; the harness steers the real map to the order given in the case (rebuilds until it agrees) instead of guessing",
         ],
